@@ -115,11 +115,15 @@ class Rig:
                 def payload(p=p):
                     self.log.append({'k': 'eval'})
                     return None if p['ts'] is None else mk(p['ts'])
-            r = self.S.send(payload, None, 0)
-            self.log.append({'k': 'none'} if r is None else {'k': 'ret', 'next': r.msg_id})
+            try:
+                r = self.S.send(payload, None, 0)
+                self.log.append({'k': 'none'} if r is None else {'k': 'ret', 'next': r.msg_id})
+            except fakezmq.BlockedForever:        # send(timeout=0) entered a wait without a time limit: in the real system this call never returns
+                self.log.append({'k': 'blocked'})
             obs = {'k': 'sent', 'outs': list(self.log)}
         elif k == 'recv':
-            r = self.R.recv(None, 0)
+            try: r = self.R.recv(None, 0)
+            except fakezmq.BlockedForever: r = None; self.log.append({'k': 'blocked'})
             if r is None: self.log.append({'k': 'none'})
             else:
                 data, st = r
@@ -340,6 +344,9 @@ def oracles(trial, obs):
                     if last is not None and x['id'] <= last:
                         v.append(('pair-order', f"event {i}: id {x['id']} returned after {last} by the same consumer incarnation"))
                     last = x['id']
+    for i, (o, _) in enumerate(obs):
+        if any(x['k'] == 'blocked' for x in o.get('outs', [])):
+            v.append(('pair-call-blocks-forever', f"event {i} ({evs[i]['k']}): the call with timeout=0 waits without a time limit although nothing can arrive - it never returns")); break
     healed = [x['id'] for (o, _) in obs[npre:] if o['k'] == 'rcvd' for x in o['outs'] if x['k'] == 'ret']
     if not any(i > trial['prev_at_fault'] for i in healed):
         v.append(('pair-not-recovered', f"no new frame set within the healing schedule ({len(trial['heal'])} events, {HEAL_ROUNDS} rounds after the time-out) "
